@@ -15,6 +15,7 @@ package core
 import (
 	"context"
 	"errors"
+	"reflect"
 	"strings"
 
 	. "github.com/Comcast/sheens/match"
@@ -169,6 +170,18 @@ func (a *FuncAction) Exec(ctx context.Context, bs Bindings, props StepProps) (*E
 	if Exp_PermanentBindings && exe != nil && exe.Bs != nil {
 		for p, v := range permanent {
 			exe.Bs[p] = v
+		}
+	}
+
+	// A native action can have worked on the bindings it was given
+	// (deleted or overwritten entries of that very map).  When it
+	// fails or returns no bindings, the caller goes on with those
+	// bindings, so the permanent ones are put back there, too.
+	if Exp_PermanentBindings && bs != nil {
+		for p, v := range permanent {
+			if cur, have := bs[p]; !have || !reflect.DeepEqual(cur, v) {
+				bs[p] = v
+			}
 		}
 	}
 
